@@ -7,11 +7,12 @@
    with Convert!WinClass / LcsClass) and *concrete* filters over the id universe the generated inputs use.
 
      winc   none | b (only -b) | e (only -e) | in (-b and -e inside) | empty (b > e) | beyond (b behind the last index)
-     lcsc   none | first | last | firstlast | absent (an id that does not exist)
+     lcsc   none | first | last | firstlast | lastfirst | perm3 | dup | unknownmixed | absent (an id that does not exist)
+     ord    order of the --eac expressions and of the filters in the -f file: asc | rev | dup
      eac    0..2 --eac expressions            ffmt/ff  -f file: none | DLF xml | dlt-convert "APID CTID " list
      sort   --sort      style  a | x | s | none        ofile  -o
 
-   Mode = "opt" prints one SCN line per option combination, Mode = "shape" one per input-set shape.           *)
+   Mode = "opt" prints the dimensions of the option space (one SCN line), Mode = "shape" one per input-set shape.           *)
 EXTENDS Integers, Sequences, TLC, Json
 
 CONSTANT Mode
@@ -20,14 +21,21 @@ F(k, en, e, a, c) == [kind |-> k, en |-> en, ecu |-> e, apid |-> a, ctid |-> c]
 P(e, a, c) == F("pos", TRUE, e, a, c)
 
 WinC == {"none", "b", "e", "in", "empty", "beyond"}
-LcsC == {"none", "first", "last", "firstlast", "absent"}
+\* lifecycle selections are given in every kind of order: ascending, descending, three ids in a mixed order (middle,
+\* first, last), with a duplicate, with an unknown id among real ones; the selection is a function of the SET of ids
+LcsC == {"none", "first", "last", "firstlast", "lastfirst", "perm3", "dup", "unknownmixed", "absent"}
+\* order in which the entries of the multi-valued options (--eac expressions, filters of the -f file) are written:
+\* as listed, reversed, or with the first entry repeated at the end - Keep is a function of the set of filters
+OrdC == {"asc", "rev", "dup"}
 \* id universe of the generated inputs: APIDs APP1 AP2 A3 B, CTIDs CTX1 CT2 C3 T (lengths 4..1, zero padded in the messages);
 \* the filters name short and long ids, with the ctid shorter than the apid and vice versa, through every front-end
 EacC == { <<>>,
           <<P("ECUA", "", "")>>, <<P("", "APP1", "")>>, <<P("", "", "CT2")>>,
           <<P("ECUB", "AP2", "")>>, <<P("ECUA", "APP1", "C3")>>,
           <<P("ECUA", "", ""), P("", "A3", "")>>, <<P("", "B", "CTX1"), P("", "", "T")>>,
-          <<P("ECUX", "", "")>> }
+          <<P("ECUX", "", "")>>,
+          <<P("ECUA", "APP1", ""), P("", "APP1", "")>>,                                    \* ECU-qualified entry shadowed by a general one
+          <<P("ECUB", "", "CT2"), P("", "B", "CTX1"), P("ECUA", "AP2", "")>> }            \* both ECUs share the APIDs/CTIDs
 FfC == { [fmt |-> "none", ff |-> <<>>],
          [fmt |-> "dlf",  ff |-> <<P("", "APP1", "")>>],
          [fmt |-> "dlf",  ff |-> <<F("neg", TRUE, "ECUB", "", "")>>],
@@ -39,7 +47,10 @@ FfC == { [fmt |-> "none", ff |-> <<>>],
          [fmt |-> "conv", ff |-> <<P("", "A3", "CT2"), P("", "APP1", "CTX1")>>] }
 StyleC == {"a", "x", "s", "none"}
 
-OptSpace == [winc : WinC, lcsc : LcsC, eac : EacC, f : FfC, sort : BOOLEAN, style : StyleC, ofile : BOOLEAN]
+OptSpace == [winc : WinC, lcsc : LcsC, eac : EacC, f : FfC, ord : OrdC, sort : BOOLEAN, style : StyleC, ofile : BOOLEAN]
+\* the space is the full product of its dimensions; it is emitted as its dimensions (one SCN line), the orchestrator forms
+\* the product (pairwise-complete arrays, every value alone, seeded samples of the product)
+Dims == [winc |-> WinC, lcsc |-> LcsC, eac |-> EacC, f |-> FfC, ord |-> OrdC, sort |-> BOOLEAN, style |-> StyleC, ofile |-> BOOLEAN]
 
 \* input sets: 1-3 files; per file the ECUs it contains (same pattern = same stream, read one after the other;
 \* different patterns = parallel streams merged by reception time); boots per ECU; garbage between messages; some
@@ -64,7 +75,7 @@ VARIABLES x, printed
 vars == <<x, printed>>
 
 Init == /\ printed = FALSE
-        /\ IF Mode = "opt" THEN x \in OptSpace ELSE x \in ShapeSpace
+        /\ IF Mode = "opt" THEN x = Dims ELSE x \in ShapeSpace
 Next == ~printed /\ printed' = TRUE /\ UNCHANGED x
 Spec == Init /\ [][Next]_vars
 
